@@ -7,8 +7,19 @@ open ZipVerif ZipVerif.Model
 
 def storedExt : Ext := mkExt []
 
-def faultRead (bytes : Bytes) (fa : Option Nat) : String :=
-  match openArchive fa (Dev.ofBytes bytes) with
+/-- kind names as `Out.className` prints them -/
+def parseKind : String → Option IoKind
+  | "injected" => some .injected
+  | "invalidinput" => some .invalidInput
+  | "eof" => some .unexpectedEof
+  | "invaliddata" => some .invalidData
+  | "other" => some .other
+  | "writezero" => some .writeZero
+  | "brokenpipe" => some .brokenPipe
+  | _ => none
+
+def faultRead (bytes : Bytes) (fa : Option Nat) (kind : IoKind := .injected) : String :=
+  match openArchive fa (Dev.ofBytesK bytes kind) with
   | (.err e, d) => s!"open={(Out.className e).replace " " ":"} ncalls={d.calls}"
   | (.panic _, _) => "panic"
   | (.ok a, d) =>
@@ -27,9 +38,12 @@ def opFault (op : String) (a : Args) : Option String := do
   let fa : Option Nat := match a.get? "k" with
     | some "none" | none => none
     | some v => v.toNat?
+  let kind : IoKind ← (match a.get? "kind" with
+    | none => some .injected
+    | some n => parseKind n)
   match op with
   | "fault.enc" | "fault.writec" | "fault.writeo" | "fault.rawcopy" | "fault.stream" => some "oracle-only"   -- cipher / codec layers are external: judged by the oracle alone
-  | "fault.read" => some (faultRead (← a.hex? "bytes") fa)
+  | "fault.read" => some (faultRead (← a.hex? "bytes") fa kind)
   | "fault.write" =>
     let calls := ((a.get? "calls").getD "").splitOn ";"
     let ext := mkWExt (parseComp ((a.get? "comp").getD "-")) (parseZc ((a.get? "zc").getD "-"))
@@ -45,10 +59,10 @@ def opFault (op : String) (a : Args) : Option String := do
     match calls with
     | first :: rest =>
       match first.splitOn "," with
-      | ["new"] => some (runCallsF ext srcs fa tail rest WState.init (Dev.ofBytes []) ["ok"])
+      | ["new"] => some (runCallsF ext srcs fa tail rest WState.init (Dev.ofBytesK [] kind) ["ok"])
       | ["ap", base] => do
         let b ← parseHex base
-        match newAppend fa (Dev.ofBytes b) with
+        match newAppend fa (Dev.ofBytesK b kind) with
         | (.ok s, d) => some (runCallsF ext srcs fa tail rest s d ["ok"])
         | (.err e, d) => some ((Out.className e).replace " " ":" ++ " " ++ showFinal d ++ tail d)
         | (.panic _, _) => some "panic"
